@@ -87,19 +87,11 @@ theorem print_fixpoint_every_preimage (o : SdlPrintT.OptsT) (s : SchemaD) (hwf :
 
 /-! ### `CanonDoc ρ (schemaToDoc s)` reduced to the printed default literals -/
 
-/-- the arguments / input fields of a schema whose default the printer writes -/
-def allArgs (s : SchemaD) : List ArgD :=
-  s.directives.flatMap (·.args) ++ s.types.flatMap (fun t => t.fields.flatMap (·.args) ++ t.inputFields)
-
 /-- `ρ` agrees with the printer: every printed default literal is canonical for `ρ` (`f = ρ v` on its numerals) -/
 def LitsCanon (ρ : String → String) (s : SchemaD) : Prop :=
   ∀ a ∈ allArgs s, a.hasDefault = true → ∀ l, valueLit s valueFuel a.default a.type = some l → reLit ρ l = l
 
-/-- the decidable form of `LitsCanon` -/
-def litsCanonWF (ρ : String → String) (s : SchemaD) : Bool :=
-  (allArgs s).all fun a => !a.hasDefault ||
-    (match valueLit s valueFuel a.default a.type with | some l => litCanonB ρ l | none => true)
-
+/-- the decidable form `SdlText.litsCanonWF` (evaluated by the driver with Python's `repr(float(·))`) implies it -/
 theorem litsCanon_of_wf (ρ : String → String) (s : SchemaD) (h : litsCanonWF ρ s = true) : LitsCanon ρ s := by
   intro a ha hd l hl
   have := List.all_eq_true.mp h a ha
